@@ -9,9 +9,11 @@ from common import Inconclusive, add_violations_from_bad, finish, log
 def gen_qual_cases(ctx, quick):
     res = ctx.tlc("VrfGen", cfg="VrfGen.cfg" if quick else "VrfGen_full.cfg", timeout=1500)
     cases = [json.loads(raw.strip()[1:-1].replace('\\"', '"')) for raw in ctx.tlc_lines(res, "CASE")]
-    if not cases:
+    mc = ctx.tlc_lines(res, "VRFMSGCASES")
+    if not cases or not mc:
         raise Inconclusive("TLC generated no qualification cases")
-    return res, cases
+    msgcases = json.loads(mc[0].strip()[1:-1].replace('\\"', '"'))
+    return res, cases, msgcases
 
 
 def run(ctx):
@@ -23,7 +25,9 @@ def run(ctx):
     # 2. the qualification / quality-number rule, exhaustive in a one-byte value domain
     qn = ctx.tlc("VrfQn", cfg="VrfQn_quick.cfg" if quick else "VrfQn.cfg", timeout=1500)
     # 3. TLC computes the decision points of the rule for every stake configuration
-    gen, qcases = gen_qual_cases(ctx, quick)
+    gen, qcases, msgcases = gen_qual_cases(ctx, quick)
+    msp = os.path.join(ctx.scratch, "vrfmsg.json")
+    json.dump(msgcases, open(msp, "w"))
     nvalues = sum(len(c["values"]) for c in qcases)
     drv = ctx.build("c16")
     shards = 4 if quick else 16
@@ -39,6 +43,8 @@ def run(ctx):
                 "--maxz", "2" if k % 4 == 1 else "1", "--attempts", "8"]
         if k == 0:
             argv += ["--script", sp]
+        if k < 2:
+            argv += ["--msgscript", msp]
         argvs.append(argv)
     outs = ctx.run_parallel(argvs, timeout=1500)
     counts = {}
@@ -49,7 +55,7 @@ def run(ctx):
             raise Inconclusive("driver printed no summary")
         for key, v in re.findall(r"(\w+)=(\d+)", line[-1]):
             counts[key] = counts.get(key, 0) + int(v)
-    for need in ("retain", "concurrent", "boundary", "prove", "transport", "z0", "z1", "z2", "mutate", "torsion", "torsionAccepted", "validate", "qualified"):
+    for need in ("msgpair", "askedAgain", "retain", "concurrent", "boundary", "prove", "transport", "z0", "z1", "z2", "mutate", "torsion", "torsionAccepted", "validate", "qualified"):
         if counts.get(need, 0) == 0:
             raise Inconclusive("vacuity: no %s observations were produced" % need)
     if counts["validate"] == counts["qualified"]:
@@ -87,6 +93,8 @@ def run(ctx):
         "transitions": ref["generated"] + qn["generated"] + gen["generated"],
         "traces_validated_against_impl": len(merged),
         "events_validated": total,
+        "related_message_pairs": counts["msgpair"],
+        "qualification_questions_asked_again": counts["askedAgain"],
         "retained_proof_observations": counts["retain"],
         "concurrent_prover_runs": counts["concurrent"],
         "activation_height_observations": counts["boundary"],
